@@ -45,6 +45,24 @@ for uid, entry, define, fns, what, can in [
                       cover_functions=COVER.get(uid, (fns, []))[0], cover_allow=COVER.get(uid, (fns, []))[1], trusted=TRUST, what=what, timeout=600,
                       remove_bodies=["svt_enc_handle_dctor"]))
 
+DECFN = ["svt_av1_dec_init_handle", "svt_av1_dec_set_parameter", "svt_av1_dec_init", "svt_av1_dec_frame",
+         "svt_av1_dec_get_picture", "svt_av1_dec_deinit", "svt_av1_dec_deinit_handle"]
+DKEEP = DECFN + ["svt_dec_out_buf", "svt_svt_dec_set_default_parameter", "init_svt_av1_decoder_handle", "svt_dec_handle_ctor",
+                 "svt_dec_component_de_init", "decode_multiple_obu", "dec_pic_mgr_update_ref_pic", "dec_mem_init", "mk_dec"]
+UNITS.append(Unit(
+    uid="U14.d.null_args", prop="C14", harness="harness/c14_dec.c", entry="h_dec_null_args", mode="plain", defines=["U14D_NULL"],
+    functions=DECFN, keep_bodies=DKEEP, unwind=4, canaries=1, min_obligations=30, cover_functions=[], timeout=600, mem_gb=16,
+    what="every decoder entry point with each pointer argument NULL in turn (handle, configuration, data, output "
+         "buffer) returns an error code and dereferences nothing invalid; dec_frame(NULL data) does not enter the parser",
+    trusted=["decode_multiple_obu / dec_pic_mgr_update_ref_pic / dec_mem_init are stubs asserting non-NULL arguments (the parser is C10's)",
+             "OS objects modelled as heap cells"]))
+UNITS.append(Unit(
+    uid="U14.d.get_picture", prop="C14", harness="harness/c14_dec.c", entry="h_dec_get_picture_early", mode="plain", defines=["U14D_GETPIC"],
+    functions=["svt_av1_dec_get_picture", "svt_dec_out_buf"], keep_bodies=DKEEP, unwind=4, canaries=1, min_obligations=30,
+    cover_functions=[], timeout=600, mem_gb=16,
+    what="svt_av1_dec_get_picture on a handle as svt_av1_dec_init leaves it (no current picture, show_frame 0): returns "
+         "EB_DecNoOutputPicture without dereferencing the missing picture buffer",
+    trusted=["handle state after init written from svt_av1_dec_init / dec_mem_init (cur_pic_buf[0] = NULL, show_frame = 0)"]))
 META = {"C14": {
     "level": "proof",
     "explanation": "One contract per public entry point: for every combination of NULL / valid pointer arguments no "
